@@ -395,6 +395,15 @@ func (c *child) genLayout(r *vlib.PRNG) layoutSpec {
 		ls.Kinds = append(ls.Kinds, []string{"plain", "remap"}[r.Intn(2)])
 		ls.GPUs = append(ls.GPUs, 1+r.Intn(ng))
 	}
+	if c.path == "emu" && r.Chance(1, 3) {
+		// room for grids of >= 64 work-groups (re-homing motif)
+		ls.Sizes = append(ls.Sizes, (4+r.Intn(5))*pageSize-r.Intn(2)*r.Intn(200))
+		ls.Kinds = append(ls.Kinds, []string{"plain", "remap", "dist"}[r.Intn(3)])
+		if ng == 1 && ls.Kinds[len(ls.Kinds)-1] == "dist" {
+			ls.Kinds[len(ls.Kinds)-1] = "plain"
+		}
+		ls.GPUs = append(ls.GPUs, 1+r.Intn(ng))
+	}
 	ls.NQ = 2 + r.Intn(3)
 	return ls
 }
@@ -460,25 +469,16 @@ func (c *child) buildCtx(ls layoutSpec, r *vlib.PRNG, parent *ctxModel) *ctxMode
 	for i := range m.good {
 		m.good[i] = -1
 	}
-	pt := d.VerifPageTable()
-	for pg := 0; pg < off/pageSize; pg++ {
-		page, ok := pt.Find(m.pid, m.base+uint64(pg*pageSize))
-		if !ok {
-			panic("harness: page not mapped")
-		}
-		m.pagePA = append(m.pagePA, page.PAddr)
-		m.pageDv = append(m.pageDv, d.VerifDeviceIDByPAddr(page.PAddr))
+	m.undef = make([]bool, off)
+	m.kTouch = make([]uint8, off/pageSize)
+	m.rehStale = make([]uint8, off/pageSize)
+	m.rehOp = make([]int32, off/pageSize)
+	for i := range m.rehOp {
+		m.rehOp[i] = -1
 	}
-	for i := range m.bufs {
-		b := &m.bufs[i]
-		for pg := 0; pg < b.Pages; pg++ {
-			g := b.Off/pageSize + pg
-			b.Devs = append(b.Devs, m.pageDv[g])
-			if pg+1 < b.Pages {
-				b.Adj = append(b.Adj, m.pagePA[g+1] == m.pagePA[g]+pageSize)
-			}
-		}
-	}
+	m.pagePA = make([]uint64, off/pageSize)
+	m.pageDv = make([]int, off/pageSize)
+	m.refreshPages(d, 0, off/pageSize)
 	for q := 0; q < ls.NQ; q++ {
 		g := 1 + (q+m.id)%ng
 		d.SelectGPU(m.ctx, g)
@@ -617,6 +617,7 @@ func (th *thread) d2h(m *ctxModel, off, n int, t elemType, blocking bool, purpos
 	cl := m.classify(off, n)
 	o := opRec{Idx: len(m.ops), Kind: "d2h", Off: off, N: n, Type: t.Name, Q: q, Class: cl.String(), Extra: purpose}
 	dst, bytesOf := hostDest(t, n)
+	m.mustBeDefined(off, n, "D2H")
 	th.noteCopy(m, "d2h", o, t, cl, purpose)
 	m.ops = append(m.ops, o)
 	pd := &pendingRead{op: o, dst: dst, bytesOf: bytesOf, want: d2hExpected(t, m.shadow[off:off+n]), purpose: purpose, after: after}
@@ -656,7 +657,8 @@ func (th *thread) kernel(m *ctxModel, off, nElem int, op kern.Op, cst uint32, bl
 		co = kern.ElemKernel(op) // own code object per (queue, op): see the open finding C12|second-queue-launches-cached-code-before-upload
 		m.cos[key] = co
 	}
-	o := opRec{Idx: len(m.ops), Kind: "kernel", Off: off, N: n, Q: q, Extra: fmt.Sprintf("%v(%d) gpu%d", op, cst, m.qGPU[q])}
+	o := opRec{Idx: len(m.ops), Kind: "kernel", Off: off, N: n, Q: q, Extra: fmt.Sprintf("%v(%d) gpu%d", op, cst, m.qGPU[q]), gpu: m.qGPU[q]}
+	m.touch(c, m.qGPU[q], off, n)
 	m.applyKernel(&o, op, cst)
 	args := kern.ElemArgs{Buf: m.ptr(off), C: cst}
 	c.d.EnqueueLaunchKernel(m.queues[q], co, [3]uint32{uint32(nElem), 1, 1}, [3]uint16{64, 1, 1}, &args)
@@ -713,7 +715,8 @@ func (th *thread) kernelStrided(m *ctxModel, off, nElem int, op kern.Op, cst uin
 	c := th.c
 	span := nElem / 256 * 2048
 	q := th.queueFor(m, off, span, false)
-	o := opRec{Idx: len(m.ops), Kind: "kernel", Off: off, N: span, Q: q, Extra: fmt.Sprintf("strided %v(%d) gpu%d", op, cst, m.qGPU[q])}
+	o := opRec{Idx: len(m.ops), Kind: "kernel", Off: off, N: span, Q: q, Extra: fmt.Sprintf("strided %v(%d) gpu%d", op, cst, m.qGPU[q]), gpu: m.qGPU[q]}
+	m.touch(c, m.qGPU[q], off, span)
 	o.old = append([]byte(nil), m.shadow[off:off+span]...)
 	for g := 0; g < nElem; g++ {
 		i := off + stridedOffset(g)
@@ -788,7 +791,8 @@ func (th *thread) kernelSweep(m *ctxModel, off, nElem, passes int, op kern.Op, c
 	c := th.c
 	n := 4 * nElem * passes
 	q := th.queueFor(m, off, n, false)
-	o := opRec{Idx: len(m.ops), Kind: "kernel", Off: off, N: n, Q: q, Extra: fmt.Sprintf("sweep x%d %v(%d) gpu%d", passes, op, cst, m.qGPU[q])}
+	o := opRec{Idx: len(m.ops), Kind: "kernel", Off: off, N: n, Q: q, Extra: fmt.Sprintf("sweep x%d %v(%d) gpu%d", passes, op, cst, m.qGPU[q]), gpu: m.qGPU[q]}
+	m.touch(c, m.qGPU[q], off, n)
 	m.applyKernel(&o, op, cst)
 	args := kern.ElemArgs{Buf: m.ptr(off), C: cst, Pad: uint32(4 * nElem)}
 	c.d.EnqueueLaunchKernel(m.queues[q], sweepKernel(op, passes), [3]uint32{uint32(nElem), 1, 1}, [3]uint16{64, 1, 1}, &args)
@@ -809,7 +813,9 @@ func (th *thread) d2dKernel(m *ctxModel, dstOff, srcOff, n int) {
 	if m.conflict(q, srcOff, n) {
 		th.drainAll()
 	}
-	o := opRec{Idx: len(m.ops), Kind: "kernel", Off: dstOff, N: n, Q: q, Extra: fmt.Sprintf("d2d(from %d) gpu%d", srcOff, m.qGPU[q])}
+	o := opRec{Idx: len(m.ops), Kind: "kernel", Off: dstOff, N: n, Q: q, Extra: fmt.Sprintf("d2d(from %d) gpu%d", srcOff, m.qGPU[q]), gpu: m.qGPU[q], src: srcOff + 1}
+	m.touch(c, m.qGPU[q], srcOff, n)
+	m.touch(c, m.qGPU[q], dstOff, n)
 	m.applyWrite(&o, append([]byte(nil), m.shadow[srcOff:srcOff+n]...))
 	c.d.EnqueueMemCopyD2D(m.queues[q], m.ptr(dstOff), m.ptr(srcOff), n)
 	m.claims = append(m.claims, claim{q, dstOff, n}, claim{q, srcOff, n})
@@ -867,6 +873,7 @@ func (th *thread) check(m *ctxModel, pd *pendingRead) {
 			}
 		}
 	}
+	m.noteReadOfRehomed(c, pd)
 	if bytes.Equal(got, pd.want) {
 		g := m.good[pd.op.Off : pd.op.Off+pd.op.N]
 		for j := range g {
@@ -913,6 +920,9 @@ func (th *thread) check(m *ctxModel, pd *pendingRead) {
 		symptom = "kernel-write-not-observed"
 		if !stale {
 			symptom = "wrong-bytes-in-kernel-written-range"
+		}
+		if m.kernelWritesSinceRehomingMissing(o, pd.op.Idx, got[i]) {
+			symptom = "kernel-writes-since-rehoming-not-observed"
 		}
 		culprit = "kernel"
 	case w != nil && w.Kind == "h2d":
@@ -961,7 +971,7 @@ func (th *thread) check(m *ctxModel, pd *pendingRead) {
 		}
 	}
 	m.broken = true
-	key := fmt.Sprintf("C11|%s|%s|%s", c.path, symptom, strings.Split(culprit, "/")[0])
+	key := fmt.Sprintf("C11|%s|%s|%s", c.path, symptom, strings.Split(culprit, "/")[0]) + m.rehomeTag(o, w, pd.op.Idx)
 	var wstr, lwstr string
 	if w != nil {
 		wstr = w.String()
@@ -973,7 +983,7 @@ func (th *thread) check(m *ctxModel, pd *pendingRead) {
 		fmt.Sprintf("%s of ctx%d arena [%d,+%d) as %s: byte %d (arena offset %d, page %d of the arena, device %d) is 0x%02x, shadow says 0x%02x; %d of %d bytes differ; last writer of that byte: %s; most recent write: %s",
 			pd.purpose, m.id, pd.op.Off, pd.op.N, pd.op.Type, i, o, o/pageSize, m.pageDv[o/pageSize], got[i], pd.want[i], nDiff, len(got), wstr, lwstr),
 		map[string]any{"reader": pd.op.String(), "first_diff_arena_offset": o, "one_byte_probe": probe, "got_equals_value_before_last_write": stale,
-			"layout": m.bufs, "page_paddr": hexes(m.pagePA), "recent_ops": m.tailOps(25), "queue_gpus": m.qGPU})
+			"layout": m.bufs, "page_paddr": hexes(m.pagePA), "recent_ops": m.tailOps(25), "queue_gpus": m.qGPU, "rehoming_history_of_that_page": m.rehomeHistory(o / pageSize)})
 }
 
 func allEE(got, want []byte) bool {
@@ -1160,6 +1170,10 @@ func (th *thread) step() {
 	r := th.r
 	if c.path == "dma" && r.Chance(1, 7) {
 		th.concurrentMotif()
+		return
+	}
+	if rehomeEnabled(c.path) && r.Chance(1, rehomeEvery[c.path]) {
+		th.rehomeStep()
 		return
 	}
 	m := th.ms[r.Intn(len(th.ms))]
@@ -1385,7 +1399,7 @@ func childMain() {
 	switch {
 	case cfg.Kind == "emu" || strings.HasPrefix(cfg.Kind, "canon-emu"):
 		c.path = "emu"
-	case cfg.Kind == "tmagic":
+	case cfg.Kind == "tmagic" || strings.HasPrefix(cfg.Kind, "canon-tmagic"):
 		c.path = "tmagic"
 		pc.Timing, pc.MagicCopy = true, true
 	default:
